@@ -512,7 +512,7 @@ CVIEWS = ["evalpts", "bbox", "tess", "delta"]
 @st.composite
 def _cstep(draw):
     m = draw(st.sampled_from(["add", "delta", "sample", "edit_element", "translate", "copy_add", "noop", "ops_copy", "delta_dir", "sample_dir", "tessellator"]))
-    return {"m": m, "views": draw(st.lists(st.sampled_from(CVIEWS), min_size=0, max_size=3, unique=True)),
+    return {"m": m, "views": draw(st.lists(st.sampled_from(CVIEWS + ["tess", "tess"]), min_size=0, max_size=3, unique=True)),
             "n": draw(st.integers(3, 6)), "seed": draw(st.integers(0, 10 ** 6)), "i": draw(st.integers(0, 7)),
             "vec": [draw(st.integers(-16, 16)) / 8.0 for _ in range(3)]}
 
@@ -522,7 +522,7 @@ def _cont_cases(draw, tier):
     kind = draw(st.sampled_from(["curve", "surface", "surface", "volume"]))
     dim = draw(st.sampled_from([2, 3])) if kind == "curve" else 3
     shapes = [draw(gen.spline(kinds=(kind,), dims=(dim,), max_p=2, max_extra=2, vol_max_p=1, vol_max_extra=1)) for _ in range(4)]
-    return {"shapes": shapes, "start": draw(st.integers(1, 2)), "first_views": draw(st.lists(st.sampled_from(CVIEWS), max_size=3, unique=True)),
+    return {"shapes": shapes, "start": draw(st.integers(1, 2)), "first_views": draw(st.lists(st.sampled_from(CVIEWS + ["tess", "tess"]), max_size=3, unique=True)),
             "steps": [draw(_cstep()) for _ in range(draw(st.integers(2, 8 if tier == "thorough" else 5)))]}
 
 
@@ -623,8 +623,11 @@ def check_container(case, ctx):
             if cont.pdimension > 1:
                 k_ = s["i"] % cont.pdimension
                 nm = ("delta_" if m == "delta_dir" else "sample_size_") + "uvw"[k_]
-                setattr(cont, nm, 1.0 / s["n"] if m == "delta_dir" else s["n"])
-                model[k_] = 1.0 / s["n"] if m == "delta_dir" else list(cont.delta)[k_]          # the other directions keep what they had
+                # a step size is any number in (0, 1), not only 1/n
+                # (every other time the new step keeps the integer part of 1/step of the direction and changes its rounded value)
+                dval = 1.0 / s["n"] if s["seed"] % 2 else 1.0 / (int(1.0 / model[k_] + 1e-9) + 0.7)
+                setattr(cont, nm, dval if m == "delta_dir" else s["n"])
+                model[k_] = dval if m == "delta_dir" else list(cont.delta)[k_]          # the other directions keep what they had
                 seq.append(m)
                 cached.clear()
                 dirty.clear()
